@@ -216,10 +216,16 @@ class CirqSimulator(Backend):
             qubit_list = self.cirq.LineQubit.range(source_circuit.width)
             for i, qubit in enumerate(qubit_list):
                 translated_circuit.append(self.cirq.measure(qubit, key=str(i + n_meas)))
-            job_sim = cirq_simulator.run(translated_circuit, repetitions=self.n_shots)
             samples = dict()
+            if initial_statevector is None:
+                job_sim = cirq_simulator.run(translated_circuit, repetitions=self.n_shots)
             for j in range(self.n_shots):
-                bitstr = "".join([str(job_sim.measurements[str(i)][j, 0]) for i in range(n_meas + source_circuit.width)])
+                if initial_statevector is None:
+                    bitstr = "".join([str(job_sim.measurements[str(i)][j, 0]) for i in range(n_meas + source_circuit.width)])
+                else:
+                    # run() always starts from |0...0>: simulate one shot at a time from the supplied state
+                    shot_sim = cirq_simulator.simulate(translated_circuit, initial_state=cirq_initial_statevector)
+                    bitstr = "".join([str(shot_sim.measurements[str(i)][0]) for i in range(n_meas + source_circuit.width)])
                 samples[bitstr] = samples.get(bitstr, 0) + 1
             self.all_frequencies = {k: v / self.n_shots for k, v in samples.items()}
             frequencies = self.all_frequencies
